@@ -125,6 +125,15 @@ def run(ctx):
                 for st in b.stores:
                     if strip(st.root) is strip(idx.args[0]) and st.fields() == idx.fields() and b.cfg.dominates(sw, st.point[0]) and b.cfg.dominates(st.point[0], c.point[0]) and st.point < c.point:
                         bad = st
+            # a length read before a loop that removes elements of that vector is stale inside the loop
+            loops = b.cfg.loops()
+            for m in b.calls:
+                if m.callee_name() in ('swap_remove', 'remove', 'pop', 'truncate', 'clear', 'retain') and m.args:
+                    mb = strip(m.args[0])
+                    if mb.kind in ('ref', 'load') and mb.fields()[-1:] == (fields[-1],):
+                        for h, body in loops.items():
+                            if m.point[0] in body and sw in body and lencall.point[0] not in body:
+                                bad = m
             if bad is not None:
                 ctx.add(RULE, fn, 'seg-index(%s)' % tgt.name, 'violation', 'the bound check is invalidated before the unchecked access (%s)' % (bad.callee_name() if hasattr(bad, 'callee_name') else 'index reassigned'), props, line)
             else:
